@@ -26,7 +26,7 @@ def gen_cases(ctx):
     sz = sizes(ctx)
     cases = []
     progs = []
-    for f in [corpus.tc, corpus.sp_count, corpus.funnel_rel, corpus.funnel_lat, corpus.neg_agg_chain]:
+    for f in [corpus.tc, corpus.sp_count, corpus.funnel_rel, corpus.funnel_lat, corpus.neg_agg_chain, corpus.noindex_cycle]:
         rng = random.Random(ctx.rng.getrandbits(48))
         name, prog, input_rels, mk = f(rng)
 
@@ -82,8 +82,9 @@ def gen_cases(ctx):
     # (b) pool triples, (c) nested
     triples = [(a, b, c) for a in POOLS for b in POOLS for c in POOLS]
     rng.shuffle(triples)
+    corpus_cases = [c for c in cases if c.name.startswith('k_')]
     for ti, (a, b, c3) in enumerate(triples[:sz['triples']]):
-        c = rng.choice(cases)
+        c = corpus_cases[ti % len(corpus_cases)] if ti % 3 == 0 else rng.choice(cases)
         v = rng.choice([x for x in c.variants if x.par])
         rows = c.mk(c.rng)
         if c.positive and len(rows) >= 2:
